@@ -84,6 +84,7 @@ func buildBlocks(env *runner.Env) {
 	for i := 0; i < nboxes; i++ {
 		blocks = append(blocks, block{"sample-entry-boxes", i, 0})
 	}
+	addHistoryBlocks(thorough)
 }
 
 func init() {
@@ -96,11 +97,17 @@ func init() {
 			"adts-shape: objType 1..4 x freq index 0..15 x channel 0..7, each with buffer fullness {0,0x7ff,0x555} and payload lengths 0..8184 (quick: all lengths for 3 shapes, 64 boundary lengths for the others; thorough: all lengths for all shapes); " +
 			"adts-junk: junk length 0..187 x 6 junk kinds x 8 header shapes; sample-entry: SetAACDescriptor for 3 object types x all table and boundary explicit frequencies (plus 65533..65538, 2^17-1..2^17+1, 2^23-2, 2^24-2: the widths of the mp4a samplerate field and of the 24-bit fields) -> init encode/decode (DecodeFile, DecodeFileSR) -> esds DecSpecificInfo -> DecodeAudioSpecificConfig, and the 16-bit integer part of the decoded mp4a samplerate field against the frequency passed in; " +
 			"sample-entry (6 fixed builds per object type) and sample-entry-boxes (4 random builds per block; quick 48, thorough 2000 blocks): init segments with 1..3 AAC tracks and 1..3 AAC entries per stsd (further mp4a entries built the same way and added with StsdBox.AddChild), every level esds/mp4a/stsd/stbl/minf/mdia/trak/moov encoded alone and decoded with DecodeBox from 4 reader kinds, DecodeBoxLazyMdat and DecodeBoxSR, the whole init with DecodeFile from 4 reader kinds, DecodeFile in lazy-mdat mode and DecodeFileSR; every decoded entry is compared with the configuration it was built from, and every decoded box is HELD while the next 4 boxes (of other builds, i.e. other configurations) are decoded and re-verified after each of them (DecoderSpecificInfo bytes as first seen, configuration, samplerate field). " +
+			"entry-reencode (quick 24, thorough 600 blocks x 12 histories): histories on ONE object: an init with 1..2 AAC entries (as built, or decoded with DecodeFile / DecodeFileSR) is encoded at a random subset of (box level x {Encode into a buffer, Encode into a Write-only destination, EncodeSW}), then 1..3 times an entry's configuration is replaced through the public fields (new DecConfig slice, DecConfig overwritten in place, new esds box, new mp4a entry in the stsd; new configuration of the same encoded length 3 of 4 times, any object type/channel/frequency) and every level is encoded again through all three modes and decoded (DecodeBox/DecodeBoxSR/DecodeFile/DecodeFileSR): DecoderSpecificInfo bytes = reference layout of the configuration the entry holds NOW, samplerate field = the field set. " +
+			"adts-held (quick 24, thorough 400 blocks x 300 calls): NewADTSHeader with (frequency, channel) pairs from a pool of 2..6 (so pairs repeat), DecodeADTSHeader and DecodeAudioSpecificConfig results are held in a ring of 4 and re-verified (fields, Encode output against the reference layout) after every later call; one constructor result in three is changed by the caller through its public fields (BufferFullness, PayloadLength, ChannelConfig/ObjectType), which must neither be undone by nor show in a later result. " +
+			"adts-stream / asc-stream (quick 32, thorough 600 blocks each; 6 resp. 40 streams per block x 10 source kinds: plain io.Reader wrapper, data+EOF, hesitant, one-byte, io.MultiReader, io.LimitedReader, io.SectionReader, bytes.Reader, bytes.Buffer, bufio.Reader): 2..7 (sometimes 20..119) ADTS frames [junk 0..186][7-byte or CRC-form 9-byte header][payload 0..8184 random bytes] back to back plus a tail in ONE source: DecodeADTSHeader, then the payload and finally the tail are read through the same source; header, offset, payload, tail and (where observable) the number of bytes taken from the source (junk + header length) are compared with what the harness wrote; 2..5 AudioSpecificConfigs back to back likewise. " +
 			"distinct_nontrivial counts distinct blocks in which at least one encode->decode round trip succeeded and was compared (block granularity: conservative); evaluations counts individual round trips.",
 		Assumptions: []string{
 			"reference bit layouts written from ISO/IEC 14496-3 Table 1.15 and ISO/IEC 13818-7 6.2 in ref/bitw (independent of mp4ff)",
 			"canonical configurations only: SBR/PS flags as implied by the object type, ExtensionFrequency 0 for AAC-LC",
 			"sample entry: the configuration of SetAACDescriptor(objType, f) is the documented one (stereo AAC-LC core at f Hz; HE-AAC: extension frequency 2f; HE-AAC v2: mono core + PS); the integer part of the mp4a samplerate field is f when f fits 16 bits and 0 (states no frequency; the builder's documented signal) when it does not",
+			"a box writes what it holds at the time of the Encode/EncodeSW call: the public fields (DecSpecificInfo.DecConfig, AudioSampleEntryBox.Esds/Children/SampleRate/ChannelCount, StsdBox.Children/Mp4a) are the API by which an entry's configuration is changed",
+			"results of NewADTSHeader, DecodeADTSHeader and DecodeAudioSpecificConfig are values owned by the caller",
+			"DecodeADTSHeader and DecodeAudioSpecificConfig take from their io.Reader exactly the bytes they parse (junk + 7 or 9 header bytes; the whole bytes of the configuration), as /repo HEAD does (bits.Reader fetches single bytes): the reported offset and HeaderLength are how the caller finds the payload that follows in the same source, and canonical configurations fill whole bytes so that back-to-back configurations are found at the byte where the previous one ended",
 			"a decoded box is a value: what it says must not change when the library decodes another box later; inputs handed to the slice-reader decoders are left untouched while the decoded box is held (those decoders may alias their input)",
 		},
 		Exhaustive: func(tier string) bool { return tier == "thorough" },
@@ -372,6 +379,20 @@ func run(c *runner.Ctx, idx int) {
 		runBuilds(c, fixedBuilds(c, b.a), count)
 	case "sample-entry-boxes":
 		runBuilds(c, randomBuilds(c), count)
+	case "entry-reencode":
+		for i := 0; i < 12; i++ {
+			nver, good := reencodeHistory(c)
+			if nver > 0 || !good {
+				count(good)
+			}
+			c.Evals(int64(nver))
+		}
+	case "adts-held":
+		adtsHeldBlock(c, count)
+	case "adts-stream":
+		adtsStreamBlock(c, count)
+	case "asc-stream":
+		ascStreamBlock(c, count)
 	}
 	c.Evals(n)
 	c.Count("roundtrips_ok", ok)
